@@ -236,6 +236,7 @@ mod imp {
 
     extern "C" {
         fn setsockopt(fd: i32, level: i32, name: i32, val: *const core::ffi::c_void, len: u32) -> i32;
+        fn connect(fd: i32, addr: *const core::ffi::c_void, len: u32) -> i32;
     }
 
     #[repr(C)]
@@ -292,6 +293,10 @@ mod imp {
                 // SOL_SOCKET = 1, SO_LINGER = 13 on Linux
                 unsafe {
                     setsockopt(t.as_raw_fd(), 1, 13, &l as *const Linger as *const core::ffi::c_void, 8);
+                    // connect(AF_UNSPEC) disconnects an established TCP socket at once with a RST (the descriptor
+                    // stays valid for the other threads that hold it); shutdown alone would send a FIN first
+                    let unspec = [0u8; 16];
+                    connect(t.as_raw_fd(), unspec.as_ptr() as *const core::ffi::c_void, 16);
                 }
             }
             self.close();
